@@ -394,7 +394,8 @@ class Pool():
                         continue
                     try:
                         msg = conn.recv()
-                    except EOFError:
+                    except (EOFError, OSError):
+                        # OSError: the worker died part-way through sending a message
                         logger.debug('EOFError occurred while reading from a pipe: {} - will try to issue artificial closing message', conn)
                         found = False
                         for wid, queue in self._queues.items():
